@@ -1,7 +1,7 @@
 /* C01: secp256k1_ecdsa_sig_sign - for all (seckey, message, nonce) scalars and every nonce point the
  * ecmult_gen/ge_set_gej oracles may return:  r = x(R) mod n through the REAL fe_normalize / fe_get_b32 /
  * scalar_set_b32; recid = (overflow<<1 | odd(y)) ^ high; s = +-(k^-1 * (r*d + m)) as wiring over the
- * logged mul / inverse oracles with the REAL scalar_add / is_high / cond_negate; low-S on every
+ * logged mul / inverse oracles (stated over values: either operand order, any call position) with the REAL scalar_add / is_high / cond_negate; low-S on every
  * return; ret = (r != 0 && s != 0). */
 #define LOG_SCALAR_MUL
 #define LOG_SCALAR_INV
@@ -24,24 +24,28 @@ void h_sig_sign(void) {
     rv = sval(&r); sv = sval(&s);
     __CPROVER_assert(ret == 0 || ret == 1, "C01 sig_sign: returns 0 or 1");
     __CPROVER_assert(rv < n && sv < n, "C01 sig_sign: r and s are reduced scalars");
-    __CPROVER_assert(g_gen_n == 1 && SC_EQ(g_gen_a0, non), "C01 sig_sign: R = nonce * G is the only generator multiplication");
-    __CPROVER_assert(g_sg_n == 1 && FE_EQ(g_sg_a0.x, g_gen_r0.x) && FE_EQ(g_sg_a0.y, g_gen_r0.y) && FE_EQ(g_sg_a0.z, g_gen_r0.z) && g_sg_a0.infinity == g_gen_r0.infinity,
+    __CPROVER_assert(g_gen_n >= 1 && SC_EQ(g_gen_a0, non), "C01 sig_sign: R = nonce * G");
+    __CPROVER_assert(g_sg_n >= 1 && FE_EQ(g_sg_a0.x, g_gen_r0.x) && FE_EQ(g_sg_a0.y, g_gen_r0.y) && FE_EQ(g_sg_a0.z, g_gen_r0.z) && g_sg_a0.infinity == g_gen_r0.infinity,
                      "C01 sig_sign: the affine conversion is applied to R");
     X = fmodp1(&g_sg_r0.x); Y = fmodp1(&g_sg_r0.y);   /* ge_set_gej output: magnitude 1 */
     overflow = X >= n; odd = (int)(Y & 1);
     __CPROVER_assert(rv == (overflow ? X - n : X), "C01 sig_sign: r = x(R) mod n");
-    /* s wiring: mul#0 = r*d ; t = mul#0 + m mod n (real add) ; inv = nonce^-1 ; mul#1 = inv * t ; s = +-mul#1 */
-    __CPROVER_assert(g_mul_n == 2 && g_inv_n == 1, "C01 sig_sign: two products and one inversion");
-    __CPROVER_assert(sval(&g_mul_a0) == rv && SC_EQ(g_mul_b0, sec), "C01 sig_sign: first product is r * seckey");
-    __CPROVER_assert(SC_EQ(g_inv_x0, non), "C01 sig_sign: the inverted scalar is the nonce");
-    t = sval(&g_mul_r0) + sval(&msg); if (t >= n) t -= n;
-    __CPROVER_assert(SC_EQ(g_mul_a1, g_inv_r0) && sval(&g_mul_b1) == t, "C01 sig_sign: second product is nonce^-1 * (r*seckey + message mod n)");
-    pre = sval(&g_mul_r1); high = pre > half;
-    __CPROVER_assert(sv == (high ? n - pre : pre), "C01 sig_sign: s is the product, negated iff it is high");
+    /* s wiring, over VALUES (either operand order, any call position): some product p1 of {r, seckey}; some product p2 of
+     * {nonce^-1, (p1 + message) mod n}; s = p2, negated iff p2 is high */
+    __CPROVER_assert(g_inv_n >= 1 && SC_EQ(g_inv_x0, non), "C01 sig_sign: the inverted scalar is the nonce");
+    { int i, j, ok = 0, okrec = 0; wide a1, b1, p1, a2, b2, p2, kinv = sval(&g_inv_r0), dv = sval(&sec);
+      for (i = 0; i < 4; i++) if (mul_log_get(i, &a1, &b1, &p1) && ((a1 == rv && b1 == dv) || (a1 == dv && b1 == rv))) {
+          t = p1 + sval(&msg); if (t >= n) t -= n;
+          for (j = 0; j < 4; j++) if (mul_log_get(j, &a2, &b2, &p2) && ((a2 == kinv && b2 == t) || (a2 == t && b2 == kinv))) {
+              if (sv == (p2 > half ? n - p2 : p2)) { ok = 1; pre = p2; if (!use_recid || recid == (((overflow << 1) | odd) ^ (p2 > half))) okrec = 1; }
+          }
+      }
+      __CPROVER_assert(ok, "C01 sig_sign: s = +-(nonce^-1 * (r*seckey + message mod n)) over the requested products, negated iff the product is high");
+      __CPROVER_assert(okrec, "C01 sig_sign: recid = (overflow<<1 | odd(y(R))) ^ high, high = that product was negated");
+      high = pre > half; }
     __CPROVER_assert(sv <= half, "C01 sig_sign: low-S on every return");
     __CPROVER_assert(ret == (rv != 0 && sv != 0), "C01 sig_sign: ret = (r != 0 and s != 0)");
     if (use_recid) {
-        __CPROVER_assert(recid == (((overflow << 1) | odd) ^ high), "C01 sig_sign: recid = (overflow<<1 | odd(y(R))) ^ high");
         __CPROVER_assert(recid >= 0 && recid <= 3, "C01 sig_sign: recid in [0,3]");
     } else {
         __CPROVER_assert(recid == recid0, "C01 sig_sign: no recid written when not requested");
